@@ -946,11 +946,19 @@ class _Calls:
         out = []
         for s, itv in self.ev(gen.iter, st):
             sq, et = self.seqterm(s, itv, node)
-            j = z3.Int('q_j%d' % node.lineno)
-            body = self.pure_eval(g.elt, s, gen.target, V(et, sq[j]))
-            rng = z3.And(0 <= j, j < Length(sq))
-            t = self.truth(s, body)
-            f = z3.Exists([j], z3.And(rng, t)) if is_any else z3.ForAll([j], z3.Implies(rng, t))
+            if et.kind == 'obj':
+                # quantify over the members (set-like reasoning is easier for the solver than index arithmetic)
+                sq = self.named(s, sq)
+                x = z3.Const('q_x%d' % node.lineno, Obj)
+                body = self.pure_eval(g.elt, s, gen.target, V(et, x))
+                t = self.truth(s, body)
+                f = z3.Exists([x], z3.And(Contains(sq, x), t)) if is_any else z3.ForAll([x], z3.Implies(Contains(sq, x), t))
+            else:
+                j = z3.Int('q_j%d' % node.lineno)
+                body = self.pure_eval(g.elt, s, gen.target, V(et, sq[j]))
+                rng = z3.And(0 <= j, j < Length(sq))
+                t = self.truth(s, body)
+                f = z3.Exists([j], z3.And(rng, t)) if is_any else z3.ForAll([j], z3.Implies(rng, t))
             out.append((s, vbool(f)))
         return out
 
@@ -1047,6 +1055,8 @@ class _Contracts:
         self.called.add(proc.key)
         pre = s.heap.clone()
         c0 = Ctx(args, pre, pre)
+        if proc.pure_fn is not None:
+            return [(s, V(proc.result, proc.pure_fn(c0)))]
         line = getattr(node, 'lineno', 0)
         for label, f in _norm(proc.requires(c0), 'pre'):
             self.oblige(s, 'call:%s@%s:%s' % (proc.key.split(':')[-1], line, label), f, 'pre', node)
@@ -1145,6 +1155,20 @@ class _Stmts:
     def st_Expr(self, stmt, st):
         if isinstance(stmt.value, ast.Constant):
             return [(st, Out(FALL))]
+        if isinstance(stmt.value, ast.Yield):
+            out = []
+            for s, v in self.ev(stmt.value.value, st):
+                acc = s.env['$yield']
+                s.env['$yield'] = V(SEQO, Concat(acc.t, Unit(box(v))))
+                out.append((s, Out(FALL)))
+            return out
+        if isinstance(stmt.value, ast.YieldFrom):
+            out = []
+            for s, v in self.ev(stmt.value.value, st):
+                sq, _ = self.seqterm(s, v, stmt)
+                s.env['$yield'] = V(SEQO, Concat(s.env['$yield'].t, sq))
+                out.append((s, Out(FALL)))
+            return out
         return [(s, Out(FALL)) for s, _ in self.ev(stmt.value, st)]
 
     def st_Return(self, stmt, st):
@@ -1611,6 +1635,8 @@ class _Loops:
         mods = assigned_names(body) | (assigned_names([ast.Assign(targets=[target], value=None)]) if target is not None else set())
         if acc_name:
             mods.add(acc_name)
+        if any(isinstance(n, (ast.Yield, ast.YieldFrom)) for b_ in body for n in ast.walk(b_)):
+            mods.add('$yield')
         for nm in mods:
             if nm in h.env and h.env[nm].ty.kind not in ('localfn',):
                 h.env[nm] = self.fresh_value(h.env[nm].ty, nm)
@@ -1621,6 +1647,7 @@ class _Loops:
         for fld in self.loop_modifies(spec, body, st.env):
             h.heap.set(fld, fresh('H_' + fld.strip('$'), h.heap.sort(fld)))
         i = fresh('i_' + name, z3.IntSort())
+        h.env['$i_' + name] = vint(i)      # visible to the invariants of inner loops
         h.assume(i >= 0)
         if view is not None and not view.live:
             h.assume(i <= view.length(h))
@@ -1826,6 +1853,9 @@ class Exec(Exec, _Expr, _Calls, _Contracts, _Stmts, _Loops):
             else:
                 raise Unsupported(pn, 'finite split on %r' % (ty,))
         st.env.update(args)
+        self.is_generator = any(isinstance(n, (ast.Yield, ast.YieldFrom)) for n in ast.walk(fnode))
+        if self.is_generator:
+            st.env['$yield'] = V(SEQO, Empty(SeqO))
         self.entry_heap = heap.clone()
         # materialise entry arrays so that "old" and "new" start equal
         c0 = Ctx(args, st.heap, self.entry_heap)
@@ -1864,6 +1894,8 @@ class Exec(Exec, _Expr, _Calls, _Contracts, _Stmts, _Loops):
             raise Unsupported('break/continue', 'outside loop')
         if o.kind in (FALL, RET):
             val = o.val if o.kind == RET else VNONE
+            if getattr(self, 'is_generator', False):
+                val = s.env['$yield']
             if proc.result.kind == 'items':
                 if val.ty.kind != 'items':
                     raise Unsupported('return', 'expected a dict items view, got %r' % (val.ty,))
@@ -1916,6 +1948,30 @@ class ShapeMismatch(Exception):
 
 
 class _Dicts:
+    def bi_set(self, node, st):
+        r = self.fresh_ref(st, 'set')
+        if not node.args:
+            self.set_dictval(st, r, EMPTYMAP)
+            return [(st, V(DICT, r))]
+        out = []
+        for s, v in self.ev(node.args[0], st):
+            sq, et = self.seqterm(s, v, node)
+            sq = self.named(s, sq)
+            m = fresh('setof', ObjMap)
+            k = z3.Const('so_k', Obj)
+            s.assume(z3.ForAll([k], (z3.Select(m, k) != ABSENT) == Contains(sq, k), patterns=[z3.Select(m, k)]))
+            self.set_dictval(s, r, m)
+            out.append((s, V(DICT, r)))
+        return out
+
+    def dm_add(self, node, st, recv):
+        out = []
+        for s, (v,) in self.args1(node, st, 1):
+            m = self.dictval(s, recv.t)
+            self.set_dictval(s, recv.t, z3.Store(m, box(v), box_int(1)))
+            out.append((s, VNONE))
+        return out
+
     def bi_dict(self, node, st):
         if not node.args:
             r = self.fresh_ref(st, 'dict')
